@@ -50,6 +50,8 @@ type Check struct {
 	BudgetQuick, BudgetThorough time.Duration
 	// Workers overrides the number of worker processes (default: NumCPU).
 	Workers int
+	// CaseTimeout is the per-case watchdog (default 120 s; checks whose case is a whole probe batch use more).
+	CaseTimeout time.Duration
 	// ModelChecking extras copied into coverage when Level == model_checking.
 	MC bool
 }
@@ -76,6 +78,7 @@ type workerResult struct {
 	Samples    []json.RawMessage `json:"samples"`
 	Violations []Violation       `json:"violations"`
 	Capped     bool              `json:"capped"`
+	Partial    bool              `json:"partial"`
 	CappedAt   int64             `json:"capped_at"`
 	Evaluated  int64             `json:"evaluated"`
 	Notes      []string          `json:"notes"`
@@ -91,15 +94,16 @@ type W struct {
 	Only    string          // evaluate just this case id (replay / isolation)
 	Skip    map[string]bool // case ids confirmed to crash the process
 
-	idx       int64
-	res       workerResult
-	distinct  map[string]map[uint64]struct{}
-	deadline  time.Time
-	progress  *os.File
-	cur       *C
-	maxSample int
-	keyCount  map[string]int
-	tc        map[bool]*TypeChecker
+	idx          int64
+	res          workerResult
+	distinct     map[string]map[uint64]struct{}
+	deadline     time.Time
+	progress     *os.File
+	cur          *C
+	maxSample    int
+	keyCount     map[string]int
+	tc           map[bool]*TypeChecker
+	caseWatchdog time.Duration
 }
 
 // C is the per-case context.
@@ -108,7 +112,7 @@ type C struct {
 	ID string
 }
 
-const caseWatchdog = 120 * time.Second
+const defaultCaseWatchdog = 120 * time.Second
 
 func (w *W) mine() bool {
 	i := w.idx
@@ -159,12 +163,12 @@ func (w *W) Case(id string, fn func(c *C)) {
 	}()
 	select {
 	case <-done:
-	case <-time.After(caseWatchdog):
+	case <-time.After(w.caseWatchdog):
 		if w.progress != nil {
 			w.progress.Truncate(0)
 			w.progress.WriteAt([]byte("HANG\x00"+id), 0)
 		}
-		fmt.Fprintf(os.Stderr, "worker %d: case %s exceeded the %s watchdog\n", w.Shard, id, caseWatchdog)
+		fmt.Fprintf(os.Stderr, "worker %d: case %s exceeded the %s watchdog\n", w.Shard, id, w.caseWatchdog)
 		os.Exit(3)
 	}
 	if pv != nil {
@@ -175,7 +179,10 @@ func (w *W) Case(id string, fn func(c *C)) {
 	w.res.Evaluated++
 }
 
-func (c *C) Count(name string)           { c.W.res.Counters[name]++ }
+func (c *C) Count(name string) { c.W.res.Counters[name]++ }
+
+// Partial marks the run as not exhaustive (an inner exploration hit its own time or size cap).
+func (c *C) Partial()                    { c.W.res.Partial = true }
 func (c *C) Add(name string, n int64)    { c.W.res.Counters[name] += n }
 func (w *W) Note(s string)               { w.res.Notes = append(w.res.Notes, s) }
 func (w *W) CountW(name string, n int64) { w.res.Counters[name] += n }
@@ -313,6 +320,10 @@ func runWorker(env Env, ch *Check, shard, nshards int, only, shared, dir, skip s
 		}
 	}
 	w.res.Counters = map[string]int64{}
+	w.caseWatchdog = defaultCaseWatchdog
+	if ch.CaseTimeout > 0 {
+		w.caseWatchdog = ch.CaseTimeout
+	}
 	os.MkdirAll(dir, 0o755)
 	if err := os.Chdir(dir); err != nil {
 		fmt.Fprintln(os.Stderr, "INTERNAL:", err)
@@ -491,7 +502,7 @@ func runParent(env Env, ch *Check, only string) int {
 			agg.Counters[k] += v
 		}
 		agg.Evaluated += r.Evaluated
-		agg.Capped = agg.Capped || r.Capped
+		agg.Capped = agg.Capped || r.Capped || r.Partial
 		agg.Samples = append(agg.Samples, r.Samples...)
 		agg.Violations = append(agg.Violations, r.Violations...)
 		agg.Notes = append(agg.Notes, r.Notes...)
